@@ -404,12 +404,15 @@ pub fn record(args: &[String]) {
 	for k in 0..programs {
 		let subject = subjects[(k % subjects.len() as u64) as usize];
 		let emb = Emb(LINEAR_EMBS[rng.below(3) as usize]);
-		let lim = *rng.pick(&[2i64, 3, 5, 40, 1000]);
-		let negzero = family != "rev" && rng.chance(0.5);
+		// YV_TOK_ZEROS: tiny alphabets full of signed zeros and ties, short windows (the corner the medians' binary searches and
+		// the cached extrema are most sensitive to)
+		let zeros = std::env::var("YV_TOK_ZEROS").is_ok();
+		let lim = if zeros { *rng.pick(&[1i64, 1, 2]) } else { *rng.pick(&[2i64, 3, 5, 40, 1000]) };
+		let negzero = family != "rev" && (zeros || rng.chance(0.5));
 		let p: Vec<u64> = match family {
 			"sel" => {
 				let lo = if subject == "MadMedian" { 2 } else { 1 };
-				vec![match rng.below(8) {
+				vec![match if zeros { 3 + rng.below(2) * 4 } else { rng.below(8) } {
 					0 => maxp - 1,
 					1 => maxp - 2,
 					2 => lo,
